@@ -76,6 +76,10 @@ pub trait Engine: Sync {
     fn run(&self, case: &Self::Case) -> Outcome;
     /// non-trivial rule text for the evidence file
     fn rule(&self) -> String;
+    /// shrink iterations allowed (slow engines use fewer)
+    fn shrink_iters(&self) -> u32 {
+        3000
+    }
 }
 
 #[derive(Clone, Debug, serde::Deserialize)]
@@ -268,7 +272,7 @@ fn drive_worker<E: Engine>(eng: &E, ctx: &Ctx, w: usize, cases: u64, stop: &Atom
     let config = Config {
         cases: cases as u32,
         failure_persistence: None,
-        max_shrink_iters: std::env::var("VERIF_SHRINK").ok().and_then(|s| s.parse().ok()).unwrap_or(3000),
+        max_shrink_iters: std::env::var("VERIF_SHRINK").ok().and_then(|s| s.parse().ok()).unwrap_or(eng.shrink_iters()),
         max_global_rejects: 0,
         ..Config::default()
     };
